@@ -52,6 +52,16 @@ def generate(tier, rng):
                     if x not in seen:
                         seen.add(x)
                         c.op(e.id, 'parse %s' % hx(x), cls)
+    e = ESpec(id='c12u', name='EnC12u', derives=['EnumString'], feats=['parse'])
+    e.variants = [VSpec(ident='Kelvin', ser=['k', '\u212a'], ci=True), VSpec(ident='Cafe', ser=['café', 'CAFÉ'], ci=True),
+                  VSpec(ident='Street', ser=['straße', 'STRAẞE', 'strasse'], ci=True), VSpec(ident='Sigma', ts='σ', ser=['Σ', 'ς'], ci=True),
+                  VSpec(ident='Exact', ser=['é', 'É'], ci=False)]
+    e.extra['shape'] = 'spellings of one variant that are Unicode case variants of each other'
+    e.extra['no_noise'] = True
+    uinfo = strcorpus.query_model([e])
+    c.add(e, in_domain=uinfo[e.id]['nooverlap'])
+    for s in ['k', 'K', '\u212a', 'café', 'CAFÉ', 'Café', 'cafÉ', 'CAFé', 'straße', 'STRAẞE', 'STRASSE', 'Straße', 'strasse', 'σ', 'Σ', 'ς', 'é', 'É']:
+        c.op(e.id, 'parse %s' % hx(s), 'unicode-case-variants')
     # an exact and an insensitive variant with the SAME spelling: the exact one does not make the other one case-sensitive
     ovs = strcorpus.overlap_enums('C12')
     oinfo = strcorpus.query_model(ovs)
